@@ -53,7 +53,7 @@ Proof. reflexivity. Qed.
 
 Theorem exchange_declare_source_is_model ty name durable auto_delete internal args nowait :
   in_order exchange_declare_fields
-    (gen_ExchangeDeclareOptions_into_declare ext_model
+    (gen_ExchangeDeclareOptions_into_declare
        (VR [("durable", enc_bool durable); ("auto_delete", enc_bool auto_delete); ("internal", enc_bool internal); ("arguments", VO args)])
        (VBytes ty) (VBytes name) (enc_bool false) (enc_bool nowait))
   = fields_of (AExchangeDeclare (if nowait then DNowait else DSync) ty name durable auto_delete internal args).
